@@ -406,18 +406,63 @@ class Executor:
         seq = self.sym_seq(st, seqv)
         if seq is None:
             raise Unsupported("comprehension over %r" % (seqv,))
-        # symbolic map: evaluate elt on a generic element (index i) -- requires a pure, non-forking element expression
-        i = z3.Int(fresh_name("ci"))
+        # symbolic map: evaluate elt on a generic element (index ci). Facts the evaluation adds (e.g. strip axioms) and
+        # the fresh symbols it introduces are generalised over the index: fresh x  ->  array cell X[ci], fact -> forall ci
+        from . import smt as _smt
+        ci = z3.Int(fresh_name("ci"))
+        mark = next(_smt._counter)
         s2 = st.fork()
         s2.locals = dict(st.locals)
-        self.bind_target(target, seq.elem(i), s2)
+        npc = len(s2.pc)
+        self.bind_target(target, seq.elem(ci), s2)
         rs = self.ev(elt, s2)
-        if len(rs) != 1 or rs[0].exc is not None or len(rs[0].st.pc) != len(st.pc):
-            raise Unsupported("comprehension element expression forks or adds facts")
+        if len(rs) != 1 or rs[0].exc is not None or rs[0].st is not s2:
+            raise Unsupported("comprehension element expression forks")
         v = rs[0].v
         shp = shape_of(v)
         comps = shp.unpack(v)
-        arrays = [z3.Lambda([i], c) for c in comps]
+        facts = s2.pc[npc:]
+        fresh = {}
+
+        def collect(t):
+            stack, seen = [t], set()
+            while stack:
+                x = stack.pop()
+                if x.get_id() in seen:
+                    continue
+                seen.add(x.get_id())
+                if z3.is_const(x) and x.decl().kind() == z3.Z3_OP_UNINTERPRETED:
+                    nm = x.decl().name()
+                    if "!" in nm:
+                        try:
+                            k = int(nm.rsplit("!", 1)[1])
+                        except ValueError:
+                            k = -1
+                        if k > mark and not x.eq(ci):
+                            fresh[nm] = x
+                elif z3.is_quantifier(x):
+                    stack.append(x.body())
+                else:
+                    stack.extend(x.children())
+        for t in list(facts) + list(comps):
+            collect(t)
+        subs = []
+        for nm, x in fresh.items():
+            if z3.is_array(x):
+                raise Unsupported("comprehension element introduces a fresh array")
+            arr = z3.Array(nm + "[]", I, x.sort())
+            subs.append((x, z3.Select(arr, ci)))
+        comps = [z3.substitute(c, *subs) if subs else c for c in comps]
+        if facts:
+            body = z3.substitute(And(*facts), *subs) if subs else And(*facts)
+            st.assume(z3.ForAll([ci], Implies(And(seq.lo <= ci, ci < seq.hi), body)))
+        arrays = []
+        for c in comps:
+            # identity on an existing array cell -> reuse the array itself
+            if z3.is_select(c) and c.arg(1).eq(ci):
+                arrays.append(c.arg(0))
+            else:
+                arrays.append(z3.Lambda([ci], c))
         newseq = SymSeqA(seq.lo, seq.hi, arrays, shp)
         return [self.res(st, st.alloc(HList(sym=newseq)))]
 
@@ -1133,10 +1178,11 @@ class Executor:
         loc = self.bind_params(finfo, fv.self_v, args, kwargs, st)
         if con is not None and not (self.contract is not None and con is self.contract and False):
             return self.env.apply_contract(self, st, con, finfo, loc, node)
+        if finfo.is_generator:
+            # calling a generator function runs nothing: it returns a generator object
+            return [self.res(st, st.alloc(HObj("generator", {"g_func": FuncV(fv.qual, fv.self_v), "g_args": STuple(list(loc.values()))})))]
         if not self.env.may_inline(fv.qual):
             raise Unsupported("call to %s (no contract, not inlinable)" % fv.qual)
-        if finfo.is_generator:
-            raise Unsupported("call to generator %s without contract" % fv.qual)
         if self.depth > 6:
             raise Unsupported("inline depth")
         self.inlined.add(fv.qual)
